@@ -7,6 +7,9 @@
       output:  `len <length> alen <approximate_length> edges <n>` then per query
                `S x y tx ty a…` | `S panic` | `R <ncalls> (B x y a… | L x y a… | E c)…` | `R panic`
                (the sequence stops after a panic)
+  `curved <tol> <nattr> <normalized> <ncmds> <cmds…> <nq> <queries…>`  (cmds also `Q cx cy x y a…`,
+      `C c1x c1y c2x c2y x y a…`; calls in `R` likewise)
+      output:  `len <length> edges <table entries>` then the queries as above
   `walk <start> <cap> (reg <interval> | rep <index> <n> <i…>) <ncmds> <cmds…>`  (cmds without attributes)
       output:  `n <events>` then per event `x y tx ty distance`; `fuel` appended if the model's
                loop bound was hit.
@@ -18,7 +21,7 @@ import LyonVerif.Model.Algo.Walk
 namespace Lyon.Drive.C19
 open Lyon Lyon.Drive Lyon.Measure
 
-variable {α : Type} [Scalar α] [Transc α] [Wire α]
+variable {α : Type} [Scalar α] [Transc α] [Wire α] [FlatConst α]
 
 def rdList (v : Array String) (i n : Nat) : List α := (List.range n).map (fun k => rd v (i + k))
 
@@ -33,6 +36,12 @@ def rdCmds (v : Array String) (nattr : Nat) : Nat → Nat → List (Cmd α) × N
     | "L" =>
       let r := rdCmds v nattr n (i + 3 + nattr)
       (.line (rdP v (i+1)) (rdList v (i+3) nattr) :: r.1, r.2)
+    | "Q" =>
+      let r := rdCmds v nattr n (i + 5 + nattr)
+      (.quad (rdP v (i+1)) (rdP v (i+3)) (rdList v (i+5) nattr) :: r.1, r.2)
+    | "C" =>
+      let r := rdCmds v nattr n (i + 7 + nattr)
+      (.cubic (rdP v (i+1)) (rdP v (i+3)) (rdP v (i+5)) (rdList v (i+7) nattr) :: r.1, r.2)
     | _ =>
       let r := rdCmds v nattr n (i + 2)
       (.end_ (v.getD (i+1) "0" == "1") :: r.1, r.2)
@@ -49,8 +58,9 @@ def fList (l : List α) : List String := l.map fx
 def fCall : Measure.Call α → List String
   | .begin p a => ["B", fp p] ++ fList a
   | .line p a => ["L", fp p] ++ fList a
+  | .quad c p a => ["Q", fp c, fp p] ++ fList a
+  | .cubic c1 c2 p a => ["C", fp c1, fp c2, fp p] ++ fList a
   | .end_ c => ["E", fb c]
-  | _ => ["?"]
 
 def fOutput : Output α → List String
   | .sample (.ok pos tan attrs) => ["S", fp pos, fp tan] ++ fList attrs
@@ -58,21 +68,31 @@ def fOutput : Output α → List String
   | .split (.ok calls) => ["R", toString calls.length] ++ (calls.map fCall).flatten
   | .split .panic => ["R", "panic"]
 
-def sampler (v : Array String) : String :=
-  let nattr := rdNat v 0
-  let normalized := v.getD 1 "0" == "1"
-  let ncmds := rdNat v 2
-  let (cmds, i) := rdCmds (α := α) v nattr ncmds 3
+/-- `o` = offset of the common arguments (1 for `curved`, whose first argument is the tolerance) -/
+def samplerAt (curved : Bool) (v : Array String) : String :=
+  let o := if curved then 1 else 0
+  let tol : α := if curved then rd v 0 else Scalar.ofSci 1 2
+  let nattr := rdNat v o
+  let normalized := v.getD (o + 1) "0" == "1"
+  let ncmds := rdNat v (o + 2)
+  let (cmds, i) := rdCmds (α := α) v nattr ncmds (o + 3)
   let nq := rdNat v i
   let qs : List (Query α) := rdQueries v nq (i + 1)
-  let m : M α := Measure.mk nattr cmds
+  let m : M α := Measure.mk nattr tol cmds
   let outs := Measure.run m normalized 0 qs
-  unwords (["len", fx (Measure.length m.edges), "alen", fx (approxLength m.evs),
-            "edges", toString m.edges.length] ++ (outs.map fOutput).flatten)
+  unwords ((if curved then ["len", fx (Measure.length m.edges), "edges", toString m.edges.length]
+            else ["len", fx (Measure.length m.edges), "alen", fx (approxLength m.evs),
+                  "edges", toString m.edges.length]) ++ (outs.map fOutput).flatten)
+
+def sampler (v : Array String) : String := samplerAt (α := α) false v
+def curved (v : Array String) : String := samplerAt (α := α) true v
 
 def toPEv : Cmd α → Walk.PEv α
   | .begin p _ => .begin p
   | .line p _ => .line p
+  -- the `walk` family is polyline only (the walker model has no curves)
+  | .quad _ p _ => .line p
+  | .cubic _ _ p _ => .line p
   | .end_ c => .end_ c
 
 def walkFuel : Nat := 200000
@@ -92,6 +112,7 @@ def walk (v : Array String) : String :=
 
 def fams : List Family := [
   ⟨"sampler", sampler (α := Float32), sampler (α := Float32)⟩,
+  ⟨"curved", curved (α := Float32), curved (α := Float32)⟩,
   ⟨"walk", walk (α := Float32), walk (α := Float32)⟩ ]
 
 end Lyon.Drive.C19
